@@ -209,6 +209,33 @@ def library_raised(ctx, e):
                   'n/a (aborted run)')
 
 
+class Unconfirmed(Exception):
+    pass
+
+
+def _confirm_one(ctx, sig, v):
+    """A violation counts only if it shows again in a fresh process, alone or
+    (state carried over inside the library) together with the cases that the
+    same worker call evaluated before it."""
+    r = confirm(ctx, v)
+    if isinstance(r, Crash):
+        if not v.get('crash'):
+            raise InternalError('replay of %s crashed the worker: %r' % (sig, r))
+        return r
+    if r:
+        return r
+    if v.get('_origin'):
+        omod, ofn, oarg = v['_origin']
+        whole = dict(raw_call=dict(mod=omod, fn=ofn, arg_pickle_b64=base64.b64encode(
+            pickle.dumps(oarg, protocol=4)).decode()), expect_sig=sig, single_case=v['case'],
+            note='does not show when the case runs alone in a fresh process: it needs the cases '
+                 'that the same worker call evaluated before it (state carried over inside the library)')
+        if confirm(ctx, dict(v, case=whole)):
+            v['case'] = whole
+            return True
+    raise Unconfirmed('violation did not reproduce from a fresh process: %s %r' % (sig, v['case']))
+
+
 def finish(ctx, level, explanation, rule, trusted=None):
     known = load_known().get(ctx.pid, {})
     # group by signature, keep the first (smallest) case per signature
@@ -217,30 +244,14 @@ def finish(ctx, level, explanation, rule, trusted=None):
         by_sig.setdefault(v['sig'], []).append(v)
     unknown = []
     lines = []
+    unconfirmed = []
     for sig, vs in by_sig.items():
         v = vs[0]
-        r = confirm(ctx, v)
-        if isinstance(r, Crash):
-            if not v.get('crash'):
-                raise InternalError('replay of %s crashed the worker: %r' % (sig, r))
-        elif not r and v.get('_origin'):
-            # not on its own: together with the cases that preceded it in the
-            # same worker call?
-            omod, ofn, oarg = v['_origin']
-            whole = dict(raw_call=dict(mod=omod, fn=ofn, arg_pickle_b64=base64.b64encode(
-                pickle.dumps(oarg, protocol=4)).decode()), expect_sig=sig, single_case=v['case'],
-                note='does not show when the case runs alone in a fresh process: it needs the cases '
-                     'that the same worker call evaluated before it (state carried over inside the library)')
-            v2 = dict(v, case=whole)
-            if not confirm(ctx, v2):
-                raise InternalError(
-                    'violation did not reproduce from a fresh process: %s %r'
-                    % (sig, v['case']))
-            v['case'] = whole
-        elif not r:
-            raise InternalError(
-                'violation did not reproduce from a fresh process: %s %r'
-                % (sig, v['case']))
+        try:
+            r = _confirm_one(ctx, sig, v)
+        except Unconfirmed as e:
+            unconfirmed.append((sig, str(e)))
+            continue
         if sig in known:
             lines.append('KNOWN-FINDING: property=%s %s (sig=%s, %d cases this run)'
                          % (ctx.pid, known[sig], sig, len(vs)))
@@ -255,6 +266,14 @@ def finish(ctx, level, explanation, rule, trusted=None):
                        'detail': v.get('detail'), 'cases_with_this_signature': len(vs)},
                       f, indent=1, default=repr)
         unknown.append((sig, path, v))
+    if unconfirmed and not unknown and not lines:
+        # nothing that was reported holds up in a fresh process: the checker is
+        # confused, not the library
+        raise InternalError(unconfirmed[0][1])
+    if unconfirmed:
+        # some signatures are confirmed, others only showed inside the long-lived
+        # worker (state left behind by earlier cases): those are not reported
+        ctx.info['not_reported_because_not_reproduced_in_a_fresh_process'] = [u[0] for u in unconfirmed]
     wall = time.time() - ctx.t0
     cov = dict(ctx.info)
     cov.update({k: int(v) for k, v in ctx.count.items()})
